@@ -176,6 +176,11 @@ impl<M: Math> LowRankMassMatrix<M> {
         if (!col_all_finite(&vals.as_ref())) | (!mat_all_finite(&vecs.as_ref())) {
             return;
         }
+        // An ill-conditioned window can give scales or eigenvalues that are finite but not
+        // positive; their roots / logarithms would be NaN, so keep the previous transformation.
+        if stds.iter().any(|&s| !(s > 0f64)) | vals.iter().any(|&v| !(v > 0f64)) {
+            return;
+        }
 
         let mut stds_array = math.new_array();
         math.read_from_slice(&mut stds_array, stds.try_as_col_major().unwrap().as_slice());
